@@ -502,6 +502,51 @@ private:
     int minimumWidth_ = 0;
 };
 
+// QAction as in the working tree's metatypes (Qt 5 flavour: most properties notify through changed())
+class QAction : public QObject
+{
+public:
+    explicit QAction(const char *simName) : QObject(simName) { simClass_ = "QAction"; }
+    bool isCheckable() const { return checkable_; }
+    void setCheckable(bool v) { const bool c = checkable_ != v; checkable_ = v; simTraceSet(this, "checkable", simRepr(v)); if (c) changed(); }
+    bool isChecked() const { return checked_; }
+    void setChecked(bool v) { const bool c = checked_ != v; checked_ = v; simTraceSet(this, "checked", simRepr(v)); if (c) { changed(); toggled(v); } }
+    bool isEnabled() const { return enabled_; }
+    void setEnabled(bool v) { const bool c = enabled_ != v; enabled_ = v; simTraceSet(this, "enabled", simRepr(v)); if (c) changed(); }
+    void setDisabled(bool v) { setEnabled(!v); }
+    bool isVisible() const { return visible_; }
+    void setVisible(bool v) { const bool c = visible_ != v; visible_ = v; simTraceSet(this, "visible", simRepr(v)); if (c) changed(); }
+    bool autoRepeat() const { return autoRepeat_; }
+    void setAutoRepeat(bool v) { autoRepeat_ = v; changed(); }
+    bool isIconVisibleInMenu() const { return iconVisible_; }
+    void setIconVisibleInMenu(bool v) { iconVisible_ = v; changed(); }
+    bool isShortcutVisibleInContextMenu() const { return shortcutVisible_; }
+    void setShortcutVisibleInContextMenu(bool v) { shortcutVisible_ = v; changed(); }
+    QString text() const { return text_; }
+    void setText(const QString &v) { const bool c = !(text_ == v); text_ = v; simTraceSet(this, "text", simRepr(v)); if (c) changed(); }
+    QString iconText() const { return iconText_; }
+    void setIconText(const QString &v) { iconText_ = v; changed(); }
+    QString toolTip() const { return toolTip_; }
+    void setToolTip(const QString &v) { toolTip_ = v; changed(); }
+    QString statusTip() const { return statusTip_; }
+    void setStatusTip(const QString &v) { statusTip_ = v; changed(); }
+    QString whatsThis() const { return whatsThis_; }
+    void setWhatsThis(const QString &v) { whatsThis_ = v; changed(); }
+    QFont font() const { return font_; }
+    void setFont(const QFont &f) { font_ = f; changed(); }
+    void trigger() { simTraceCall(this, "trigger", {}); if (checkable_) setChecked(!checked_); triggered(checked_); }
+    void hover() { simTraceCall(this, "hover", {}); hovered(); }
+    void toggle() { simTraceCall(this, "toggle", {}); setChecked(!checked_); }
+    void changed() { simEmit(this, static_cast<void (QAction::*)()>(&QAction::changed)); }
+    void triggered(bool checked = false) { simEmit(this, static_cast<void (QAction::*)(bool)>(&QAction::triggered), checked); }
+    void hovered() { simEmit(this, static_cast<void (QAction::*)()>(&QAction::hovered)); }
+    void toggled(bool v) { simEmit(this, static_cast<void (QAction::*)(bool)>(&QAction::toggled), v); }
+private:
+    bool checkable_ = false, checked_ = false, enabled_ = true, visible_ = true, autoRepeat_ = true, iconVisible_ = true, shortcutVisible_ = true;
+    QString text_, iconText_, toolTip_, statusTip_, whatsThis_;
+    QFont font_;
+};
+
 class QDialog : public QWidget
 {
 public:
